@@ -31,7 +31,7 @@ ASSUMPTIONS = [
   "RK4 only in contact-free cases (intermediate-stage contact sets cannot be compared from outside); filterexact activations are rewritten to filter in 3 of 4 RK4 cases (finding RK4:act:filterexact-stages)",
   "contact steps use an acceleration tolerance of at least 2e-2 (float32 solver iterate vs float64 reference); rows with efc_D > 1e10 (zero Jacobian) make the step not comparable",
 ]
-BUDGET = {"quick": dict(examples=560, seconds=150, workers=16), "thorough": dict(examples=8000, seconds=1500, workers=16)}
+BUDGET = {"quick": dict(examples=560, seconds=420, workers=16), "thorough": dict(examples=8000, seconds=1500, workers=16)}
 _CAP = int(OT.NEFC | OT.NJMAX_NNZ | OT.BROADPHASE | OT.NARROWPHASE | OT.CCD | OT.NVMAX | OT.HFIELD | OT.EPA_HORIZON | OT.CONTACT_MATCH)
 _ITER = 100
 _CALIB = bool(__import__("os").environ.get("C08_CALIB"))  # development aid: record tolerance overshoots of unexplained steps instead of raising
